@@ -55,6 +55,12 @@ func (d *Driver) EstablishPeriodicSubscription(
 	patterns := getNetconfPatterns()
 
 	subscriptionResult := patterns.subscriptionResult.FindSubmatch(r.RawResult)
+	if len(subscriptionResult) != idOrSubMatchLen {
+		return nil, fmt.Errorf(
+			"%w: subscription failed: no subscription result in reply",
+			util.ErrNetconfError,
+		)
+	}
 
 	if string(subscriptionResult[1]) != "ok" {
 		return nil, fmt.Errorf(
@@ -65,6 +71,13 @@ func (d *Driver) EstablishPeriodicSubscription(
 	}
 
 	match := patterns.subscriptionID.FindSubmatch(r.RawResult)
+	if len(match) != idOrSubMatchLen {
+		return nil, fmt.Errorf(
+			"%w: subscription failed: no subscription id in reply",
+			util.ErrNetconfError,
+		)
+	}
+
 	subID, _ := strconv.Atoi(string(match[1]))
 
 	d.subscriptionsLock.Lock()
